@@ -738,3 +738,93 @@ Proof.
   - intros [H|[H _]]; tauto.
   - intros [H|H]; [now left|]. destruct (mem a explicit) eqn:E; [left; now apply mem_In|right; now split].
 Qed.
+
+(* ----------------------------------- the repaired validation implies validity *)
+Lemma tag_number_spec t n : tag_number t = Some n -> rpc_tag t = Some n /\ number_ok n = true.
+Proof.
+  destruct t as [s|]; cbn [tag_number rpc_tag]; [|discriminate].
+  destruct (parse_uint s) as [v|]; [|discriminate]. destruct (number_ok v) eqn:E; [|discriminate].
+  intro H. inv H. now split.
+Qed.
+
+Lemma goa_numbers_spec attrs : forall seen, goa_numbers_ok seen attrs = true ->
+  exists nums, map (fun a => rpc_tag (snd a)) attrs = map Some nums /\
+               forallb number_ok nums = true /\ NoDup nums /\ (forall n, In n nums -> ~ In n seen).
+Proof.
+  induction attrs as [|a attrs IH]; intros seen H; cbn [goa_numbers_ok] in H.
+  - exists []. repeat split; [constructor|intros n []].
+  - destruct (tag_number (snd a)) as [n|] eqn:Et; [|discriminate].
+    apply andb_true_iff in H as [Hn H]. apply negb_true_iff in Hn.
+    destruct (tag_number_spec _ _ Et) as [Er Hok].
+    destruct (IH (n :: seen) H) as (nums & Em & Hall & Hnd & Hdis).
+    exists (n :: nums). cbn [map forallb]. rewrite Er, Em, Hok, Hall. repeat split.
+    + constructor; [|assumption]. intro Hin. apply (Hdis n Hin). now left.
+    + intros x [<-|Hx] Hs.
+      * assert (existsb (N.eqb n) seen = true) as E by (apply existsb_exists; exists n; split; [assumption|apply N.eqb_refl]). congruence.
+      * apply (Hdis x Hx). now right.
+Qed.
+
+Lemma map_Some_inj {A} (l1 l2 : list A) : map Some l1 = map Some l2 -> l1 = l2.
+Proof.
+  revert l2; induction l1 as [|x l1 IH]; intros [|y l2] H; cbn in H; try discriminate; [reflexivity|].
+  inv H. f_equal. now apply IH.
+Qed.
+
+Lemma valid_from_numbers (pms : list pmember) (attrs : list (str * tag)) nums :
+  map numbered (msg_fields pms) = map designed attrs ->
+  map (fun a => rpc_tag (snd a)) attrs = map Some nums ->
+  forallb number_ok nums = true -> NoDup nums ->
+  NoDup (map (fun a => field_name (fst a)) attrs) ->
+  valid_tags pms = true.
+Proof.
+  intros Hmap Hnums Hok Hnd Hnames. unfold valid_tags.
+  remember (msg_fields pms) as fs eqn:Efs. clear Efs pms.
+  assert (map pfield_name fs = map (fun a => field_name (fst a)) attrs) as Enames.
+  { apply (f_equal (map fst)) in Hmap. rewrite !map_map in Hmap. exact Hmap. }
+  assert (map pfield_num fs = nums) as Enums.
+  { apply (f_equal (map snd)) in Hmap. rewrite !map_map in Hmap. cbn [numbered designed snd] in Hmap.
+    apply map_Some_inj. rewrite map_map. rewrite <- Hnums. exact Hmap. }
+  rewrite forallb_forall in Hok.
+  apply andb_true_iff. split; [apply andb_true_iff; split|].
+  - apply forallb_forall. intros f Hf. apply Hok. rewrite <- Enums. now apply in_map.
+  - apply nodup_N_NoDup. now rewrite Enums.
+  - apply nodup_str_NoDup. now rewrite Enames.
+Qed.
+
+Lemma members_tokens_some ms : (forall a, In a (msg_attrs ms) -> rpc_tag (snd a) <> None) ->
+  exists mt, members_tokens ms = Some mt.
+Proof.
+  induction ms as [|m ms IH]; intro H; [now exists []|].
+  unfold msg_attrs in H. cbn [flat_map] in H.
+  destruct IH as [mt' Emt]. { intros a Ha. apply H, in_or_app. now right. }
+  cbn [members_tokens]. rewrite Emt.
+  destruct m as [n tg req t|u alts]; cbn [member_tokens member_attrs] in *.
+  - destruct (rpc_tag tg) as [num|] eqn:E; [eauto|]. exfalso. apply (H (n, tg)); [now left|exact E].
+  - assert (exists at_, alts_tokens alts = Some at_) as [at_ Ea].
+    { assert (forall a, In a alts -> rpc_tag (snd (fst a)) <> None) as Ha.
+      { intros a Hin. apply (H (fst (fst a), snd (fst a))). apply in_or_app. left. apply in_map_iff. now exists a. }
+      clear - Ha. induction alts as [|[[n tg] t] alts IH]; [now exists []|].
+      destruct IH as [x Ex]. { intros a Hin. apply Ha. now right. }
+      cbn [alts_tokens]. destruct (rpc_tag tg) as [num|] eqn:E; [rewrite Ex; eauto|].
+      exfalso. apply (Ha (n, tg, t)); [now left|exact E]. }
+    rewrite Ea. eauto.
+Qed.
+
+Lemma emits_valid_accepted sc ms : forallb wf_member ms = true -> goa_accepts sc ms = true ->
+  nodup_str (map (fun a => field_name (fst a)) (msg_attrs ms)) = true -> emits_valid ms = true.
+Proof.
+  intros Hwf Hacc Hnames. unfold goa_accepts in Hacc. apply andb_true_iff in Hacc as [Hnum _].
+  destruct (goa_numbers_spec _ _ Hnum) as (nums & Em & Hok & Hnd & _).
+  apply nodup_str_NoDup in Hnames. unfold emits_valid.
+  destruct (members_tokens_some ms) as [mt Emt].
+  { intros a Ha E. apply (in_map (fun a => rpc_tag (snd a))) in Ha. rewrite Em, E in Ha.
+    apply in_map_iff in Ha as (x & Hx & _). discriminate. }
+  cbn [print_msg]. rewrite Emt.
+  destruct (members_parse ms mt Emt Hwf) as (pms & Hs & Hparse).
+  set (toks := [TI kw_message; TI [77]; TY 123] ++ mt ++ [TY 125]).
+  assert (parse_message (S (length toks)) toks = Some (([77], pms), [])) as Ep.
+  { unfold toks, parse_message. cbn [app]. change (str_eqb kw_message kw_message) with true. change (ident_ok [77]) with true. cbn [andb].
+    rewrite (Hparse [] _); [reflexivity|]. cbn [length]. rewrite app_length. cbn [length]. lia. }
+  rewrite Ep. cbn [snd].
+  apply (valid_from_numbers pms (msg_attrs ms) nums); try assumption. now apply shape_members_designed.
+Qed.
